@@ -54,7 +54,8 @@ impl Rec {
         });
         r
     }
-    pub fn emit(&self, v: Value) {
+    pub fn emit(&self, mut v: Value) {
+        strip_nulls(&mut v);
         let mut g = self.0.lock().unwrap();
         let s = serde_json::to_string(&v).unwrap();
         g.lines.push(s);
@@ -76,6 +77,31 @@ impl Rec {
     }
     pub fn len(&self) -> usize {
         self.0.lock().unwrap().lines.len()
+    }
+}
+
+/// TLC's JSON module cannot represent null: drop null members, replace null elements by 0.
+pub fn strip_nulls(v: &mut Value) {
+    match v {
+        Value::Object(m) => {
+            let keys: Vec<String> = m.iter().filter(|(_, x)| x.is_null()).map(|(k, _)| k.clone()).collect();
+            for k in keys {
+                m.remove(&k);
+            }
+            for (_, x) in m.iter_mut() {
+                strip_nulls(x);
+            }
+        }
+        Value::Array(a) => {
+            for x in a.iter_mut() {
+                if x.is_null() {
+                    *x = json!(0);
+                } else {
+                    strip_nulls(x);
+                }
+            }
+        }
+        _ => {}
     }
 }
 
